@@ -292,7 +292,16 @@ _W13_GUARDS = {
     "C17": {"callbacks-delivered-by-post": 2000},
     "C19": {"request-objects-that-alone-carry-the-redirect-uri": 100},
 }
-for _gs in (_W9_GUARDS, _W10_GUARDS, _W11_GUARDS, _W12_GUARDS, _W13_GUARDS):
+# ... and with the fourteenth wave (legal but unusual implementations and request shapes; DESIGN.md 12.21)
+_W14_GUARDS = {
+    "C03": {"providers-behind-the-application's-own-server-type": 300},
+    "C04": {"storages-that-answer-an-empty-challenge-value": 200, "providers-behind-the-application's-own-server-type": 200},
+    "C05": {"storages-that-compare-an-empty-secret-plainly": 100, "assertion-type-without-an-assertion": 20, "providers-behind-the-application's-own-server-type": 30},
+    "C08": {"storages-that-compare-an-empty-secret-plainly": 100},
+    "C09": {"providers-behind-the-application's-own-server-type": 4},
+    "C15": {"exchange-without-a-type-and-without-a-storage-default": 80},
+}
+for _gs in (_W9_GUARDS, _W10_GUARDS, _W11_GUARDS, _W12_GUARDS, _W13_GUARDS, _W14_GUARDS):
     for _p, _g in _gs.items():
         PROPS[_p]["min_probes"]["quick"].update(_g)
 
@@ -322,5 +331,12 @@ _RULE_ADDENDA["C03"] = " Since the fourth session: unknown clients reported with
 _RULE_ADDENDA["C06"] += " Storages that leave the expiry of JWT access tokens to the library; client-credentials requests with an empty, non-nil audience list."
 _RULE_ADDENDA["C08"] += " Storages that leave the expiry of JWT access tokens to the library."
 _RULE_ADDENDA["C17"] += " Callbacks delivered by POST."
+_RULE_ADDENDA["C03"] += " One LegacyServer world in three behind the application's own server type (verifies a copy of the request)."
+_RULE_ADDENDA["C04"] += " Storages that answer requests without PKCE with an empty challenge value; verifiers over the whole unreserved alphabet."
+_RULE_ADDENDA["C05"] += " Storages that compare an empty secret plainly (as the example storage does); an assertion type without an assertion."
+_RULE_ADDENDA["C08"] += " Storages that compare an empty secret plainly."
+_RULE_ADDENDA["C09"] += " One LegacyServer world in three behind the application's own server type (answers with Response values of its own making)."
+_RULE_ADDENDA["C15"] += " Storages that leave requested_token_type empty: an issued token must declare its type and the type must describe it."
+_RULE_ADDENDA["C19"] += " Verifiers over the whole unreserved alphabet."
 for _p, _t in _RULE_ADDENDA.items():
     PROPS[_p]["rule"] = PROPS[_p]["rule"] + _t
